@@ -83,6 +83,7 @@ def run(tier, seed, rep):
         theo8, obs8, tol, inten = grid_lists(rnd, 10, tt == "ppm")
         n = 12
         ends = rnd.sample(range(1, n + 1), min(len(theo8), n))
+        theo8_all = list(theo8) + list(obs8)
         theo8 = theo8[:len(ends)]
         # every third event mixes charge states (m/z order is then not mass order); coverage is per charge label,
         # so those events are judged on the matches and the fraction only
@@ -118,6 +119,22 @@ def run(tier, seed, rep):
             o6, covall = call(lambda: get_match_coverage(ms))
             evs.append({**base, "tid": f"a{i}", "op": "cov1", "n": n, "out": o6,
                         "res": (covall.get("+b", []) if o6 == "ret" else [])})
+        if o == "ret" and not mixed and i % 2:
+            # the same spans again as neutral-loss / isotope variants at other m/z values: distinct fragments, each counted
+            vars_ = [{"id": f["id"], "t8": rnd.choice(theo8_all), "z": 1, "loss": rnd.choice([-18.010565, -17.026549, 0.0]),
+                      "iso": rnd.choice([0, 1])} for f in frs if rnd.random() < 0.5]
+            vars_ = [v for v in vars_ if v["loss"] != 0.0 or v["iso"] != 0]
+            frs2 = frs + vars_
+
+            def mk2():
+                return [Fragment(charge=1, ion_type="b", start=0, end=f["id"], monoisotopic=True, isotope=f.get("iso", 0),
+                                 loss=f.get("loss", 0.0), parent_sequence=parent, mass=f["t8"] / 8.0, neutral_mass=f["t8"] / 8.0,
+                                 mz=f["t8"] / 8.0, sequence="A" * f["id"], unmod_sequence="A" * f["id"], internal=False)
+                        for f in frs2]
+            o7, cov7 = call(lambda: get_match_coverage(get_fragment_matches(
+                mk2(), [p["m8"] / 8.0 for p in peaks], [float(p["inten"]) for p in peaks], real_tol(tt, tol), tt, "all")))
+            evs.append({**base, "frags": [{"id": f["id"], "t8": f["t8"], "z": 1} for f in frs2], "tid": f"v{i}", "op": "cov1",
+                        "n": n, "out": o7, "res": (cov7.get("+b", []) if o7 == "ret" else [])})
         if o == "ret":
             o2, pct = call(lambda: get_matched_intensity_percentage(ms, [float(p["inten"]) for p in peaks]))
             evs.append({**base, "tid": f"p{i}", "op": "pct", "out": o2, "res": fix(pct) if o2 == "ret" else [0, 0]})
